@@ -161,6 +161,35 @@ CHECKS["C05"] = dict(
          "clipper_tools.cpp. Operands from a palette on a 12x12 grid, not arbitrary polygons.",
     design="4 C05")
 
+CHECKS["C12"] = dict(
+    level="model_checking",
+    technique="TLA+ spec Region.tla (exact membership in fine coordinates where samples can never "
+              "lie on a grid line); TLC-enumerated polygons x limits x precisions x cut lists run "
+              "through Polygon::fracture and slice(); results validated by TLC",
+    text="TLC checks for every case that each fracture piece has at most the limit's vertices, "
+         "that the pieces cover exactly the polygon's region and never overlap on exact sample "
+         "points (guard band only along non-Manhattan edges), that tag, repetition and properties "
+         "are copied to every piece, that a limit below 5 leaves the polygon alone, and that each "
+         "slice bin holds exactly the part of the polygon between its two cuts (cuts inside, on "
+         "and outside the bounding box, repeated and empty lists, both axes); hangs are events.",
+    note="Trusted: TLC, Region.tla. 10 polygon families up to 26 vertices; the GDSII writer's use "
+         "of the vertex limit is not yet re-checked through files.",
+    design="4 C12")
+CHECKS["C13"] = dict(
+    level="model_checking",
+    technique="TLA+ spec Region.tla (conservative integer distance tests); TLC-enumerated operand "
+              "groups x distances x joins x union x scalings run through offset(); results "
+              "validated by TLC on exact sample points",
+    text="Each case carries the parts whose dilation/erosion the result must be the union of (one "
+         "per input polygon without the union option, the merged outline and holes with it; TLC "
+         "proves the two descriptions cover the same points). TLC then checks that every sample "
+         "surely closer than d is covered and none surely beyond the join's reach is (d>0), and "
+         "symmetrically for erosion, with a guard of 1.5 grid units plus the round-join arc "
+         "tolerance.",
+    note="Trusted: TLC, Region.tla, my reach factors (round 1, bevel sqrt 2, miter = limit). One "
+         "known finding (overlapping inputs, d<0, no union; vendored ClipperOffset).",
+    design="4 C13")
+
 NOT_YET = {}
 
 
